@@ -115,6 +115,52 @@ print(json.dumps({"child_rc": p.returncode, "second_creation": out.strip(), "lef
 '''
 
 
+STRICT = r'''
+import glob, json, os, subprocess, sys, time
+# the tracker inherits the warning options of the process that starts it: with warnings turned into errors its end-of-life sweep must
+# still unlink what a SIGKILLed owner left registered
+code = """
+import os, signal
+from loky.backend import get_context
+ctx = get_context('loky')
+objs = [ctx.Lock(), ctx.Semaphore(2), ctx.Event()]
+os.kill(os.getpid(), signal.SIGKILL)
+"""
+# ... also when one cleanup of the sweep fails: the owner dies right after sem_unlink() of its first lock, before unregister()
+code_fail = """
+import gc, os, signal
+import loky.backend.synchronize as sy
+from loky.backend import get_context
+ctx = get_context('loky')
+first = ctx.Lock()
+others = [ctx.Lock(), ctx.Semaphore(2), ctx.Event()]
+real_unlink = sy.sem_unlink
+def unlink_then_die(name):
+    real_unlink(name)
+    os.kill(os.getpid(), signal.SIGKILL)
+sy.sem_unlink = unlink_then_die
+del first
+gc.collect()
+os._exit(3)
+"""
+res = {}
+for label, flags, code in (("default", [], code), ("warnings_as_errors", ["-W", "error::UserWarning"], code),
+                           ("warnings_as_errors+cleanup_fails", ["-W", "error::UserWarning"], code_fail)):
+    p = subprocess.Popen([sys.executable] + flags + ["-c", code], stderr=subprocess.DEVNULL, stdout=subprocess.DEVNULL)
+    p.wait(60)
+    mine = lambda: sorted(s for s in glob.glob("/dev/shm/sem.loky-*") if f"loky-{p.pid}-" in s)
+    seen = len(mine())
+    t0 = time.time()
+    while mine() and time.time() - t0 < 20:
+        time.sleep(0.1)
+    left = mine()
+    for s in left:
+        os.unlink(s)
+    res[label] = {"pid": p.pid, "rc": p.returncode, "seen_after_death": seen, "left": left}
+print(json.dumps(res))
+'''
+
+
 FINALIZER = r'''
 import gc, glob, json, os, signal, subprocess, sys, time
 # crash points inside the finalizer of a named semaphore: the child kills itself at the entry / exit of the two steps
@@ -278,6 +324,15 @@ def run(ctx):
     elif cgot["left"] or cgot["second_creation"] != "FileExistsError":
         fails.append((("collide",), [f"owner=SemLock(name=N); SemLock(name=N) -> {cgot['second_creation']}; SIGKILL: {cgot['name']} "
                                      + ("was never swept by the tracker" if cgot["left"] else "")], cgot))
+    # (c'') the sweep survives warnings turned into errors
+    tres = runner.run_script(STRICT, vlib.REPO, timeout=120, spare_trackers=True)
+    tgot = runner.last_json(tres)
+    if tgot is None:
+        fails.append((("strict",), ["warnings-as-errors scenario did not complete: " + tres["stderr"][-300:]], None))
+    else:
+        for label, rec in tgot.items():
+            if rec["left"]:
+                fails.append((("strict", label), [f"owner SIGKILLed, interpreter flags {label}: the tracker ended without unlinking {rec['left']}"], rec))
     # (d) death at the entry / exit of either step of the finalizer, for every kind of primitive
     kinds = "lock,event" if ctx.tier == "quick" else "lock,sem,cond,event,queue"
     fres = runner.run_script(FINALIZER, vlib.REPO, timeout=300, args=(kinds,), spare_trackers=True)
